@@ -203,7 +203,7 @@ def gen_tables():
         K[n] = ev(n, mac)
     # --- the two tables, their declared sizes and the shifted pointers
     for tab, tp in (("IP", "TP"), ("IP2", "TP2")):
-        m, vals = array_init(pc, r"int\s+IntPrimeDom::%s\s*\[([^\]]*)\]" % tab, mac, tab + "[]")
+        m, vals = array_init(pc, r"[\w:\s]*?\bIntPrimeDom::%s\s*\[([^\]]*)\]" % tab, mac, tab + "[]")
         size = ev(re.search(r"IntPrimeDom::%s\s*\[([^\]]*)\]" % tab, pc).group(1), mac)
         if len(vals) > size:
             raise GenError("%s[] has more initialisers (%d) than its declared size (%d)" % (tab, len(vals), size))
@@ -215,7 +215,23 @@ def gen_tables():
         K[tp + "_OFFSET"] = ev(m2.group(1), mac)
     # --- the searches: initial step, loop counter, table pointer
     for fn, key in (("isprime_Tabule", "T1"), ("isprime_Tabule2", "T2")):
-        b = func_body(pc, r"int\s+IntPrimeDom::%s\s*\(\s*const\s+int\s+n\s*\)\s*const\s*\{" % fn, fn)
+        msig = re.search(r"int\s+IntPrimeDom::%s\s*\(\s*(?:const\s+)?\w+\s+(\w+)\s*\)\s*const\s*\{" % fn, pc)
+        if not msig:
+            raise GenError("cannot find " + fn)
+        arg = msig.group(1)
+        b = func_body(pc, r"int\s+IntPrimeDom::%s\s*\(\s*(?:const\s+)?\w+\s+\w+\s*\)\s*const\s*\{" % fn, fn)
+        # local names are free: plus / here / loop / a are recognised by their roles
+        mn = re.search(r"int\s+(\w+)\s*=\s*([^;]+);\s*int\s+(\w+)\s*=\s*([^;]+);", b)
+        if mn:
+            for old, new in ((mn.group(1), "plus"), (mn.group(3), "here")):
+                b = re.sub(r"\b%s\b" % re.escape(old), new, b)
+        ml0 = re.search(r"for\s*\(\s*int\s+(\w+)\s*=", b)
+        if ml0:
+            b = re.sub(r"\b%s\b" % re.escape(ml0.group(1)), "loop", b)
+        b = re.sub(r"\b%s\b" % re.escape(arg), "n", b)
+        ma0 = re.search(r"(\w+)\s*=\s*\(?\s*\w+\s*\[\s*here\s*\]\s*-\s*n", b)
+        if ma0:
+            b = re.sub(r"\b%s\b" % re.escape(ma0.group(1)), "a", b)
         m = re.search(r"int\s+plus\s*=\s*([^;]+);\s*int\s+here\s*=\s*([^;]+);", b)
         ml = re.search(r"for\s*\(\s*int\s+loop\s*=\s*([^;]+);\s*loop\s*;\s*\(?\s*loop\s*>>=\s*(\w+)\s*\)?\s*\)", b)
         mt = re.search(r"\(\s*(\w+)\s*\[\s*here\s*\]\s*-\s*n\s*\)", b)
@@ -235,7 +251,13 @@ def gen_tables():
     if K["T1_TABLE"] != "TP" or K["T2_TABLE"] != "TP2":
         raise GenError("isprime_Tabule/Tabule2 do not read TP/TP2 any more (%s/%s)" % (K["T1_TABLE"], K["T2_TABLE"]))
     # --- dispatch of isprime (givintprime.h)
-    b = func_body(ph, r"int\s+isprime\s*\(\s*const\s+Rep\s*&\s*n\s*,\s*int\s+r\s*=\s*\w+\s*\)\s*const\s*\{", "IntPrimeDom::isprime")
+    msig = re.search(r"int\s+isprime\s*\(\s*const\s+Rep\s*&\s*(\w+)\s*,\s*int\s+(\w+)\s*=\s*\w+\s*\)\s*const\s*\{", ph)
+    if not msig:
+        raise GenError("cannot find IntPrimeDom::isprime(const Rep&, int = ...)")
+    b = func_body(ph, r"int\s+isprime\s*\(\s*const\s+Rep\s*&\s*\w+\s*,\s*int\s+\w+\s*=\s*\w+\s*\)\s*const\s*\{", "IntPrimeDom::isprime")
+    b = re.sub(r"\b%s\b" % re.escape(msig.group(1)), "n", b)
+    b = re.sub(r"\b%s\b" % re.escape(msig.group(2)), "r", b)
+    b = re.sub(r"convert\s*\(\s*\w+\s*,\s*n\s*\)", "convert(l,n)", b)
     md = re.search(r"(?:(GIVARO_IS\w+)\s*\(\s*n\s*,\s*(\w+)\s*\)\s*\?\s*0\s*:\s*)?"
                    r"(GIVARO_IS\w+)\s*\(\s*n\s*,\s*(\w+)\s*\)\s*\?\s*isprime_Tabule\s*\(\s*\(int32_t\)\s*convert\s*\(\s*l\s*,\s*n\s*\)\s*\)\s*:\s*"
                    r"(GIVARO_IS\w+)\s*\(\s*n\s*,\s*(\w+)\s*\)\s*\?\s*isprime_Tabule2\s*\(\s*\(int32_t\)\s*convert\s*\(\s*l\s*,\s*n\s*\)\s*\)\s*:\s*"
@@ -261,7 +283,7 @@ def gen_tables():
     # --- low ends of next/prevprime
     def low_end(fn, sig, var):
         b = func_body(pc, sig, fn)
-        m = re.match(r"\s*if\s*\(\s*(GIVARO_IS\w+)\s*\(\s*%s\s*,\s*(\w+)\s*\)\s*\)\s*return\s+n\s*=\s*(\w+)\s*;" % var, b)
+        m = re.match(r"\s*if\s*\(\s*(GIVARO_IS\w+)\s*\(\s*\w+\s*,\s*(\w+)\s*\)\s*\)\s*return\s*\(?\s*\w+\s*=\s*(\w+)\s*\)?\s*;", b)      # names free
         if not m or cmpmac.get(m.group(1)) not in ("<", "<="):
             raise GenError("%s left the translated shape (if (%s <= k) return n = v;)" % (fn, var))
         bound = ev(m.group(2), mac) + (0 if cmpmac[m.group(1)] == "<=" else -1)
@@ -272,18 +294,24 @@ def gen_tables():
     K["PREV_LOW"], K["PREV_LOWVAL"], b4 = low_end("prevprime", r"IntPrimeDom::prevprime\s*\([^)]*\)\s*const\s*\{", "p")
     # first step and loop step of the four functions:  (x&1u) ? A : B  and  addin/subin(n, S)
     def steps(fn, body, var, op):
-        m = re.search(r"\(\s*%s\s*&\s*1u?\s*\)\s*\?\s*(\w+)\s*:\s*(\w+)" % var, body)
-        ms = re.search(r"while\s*\(\s*!\s*isprime\s*\(\s*n\s*,\s*r\s*\)\s*\)\s*%sin\s*\(\s*n\s*,\s*(\w+)\s*\)" % op, body)
+        m = re.search(r"\(\s*\w+\s*&\s*1[uU]?[lL]*\s*\)\s*\?\s*(\w+)\s*:\s*(\w+)", body)
+        ms = re.search(r"while\s*\(\s*!\s*isprime\s*\(\s*(\w+)\s*,\s*\w+\s*\)\s*\)\s*\{?\s*%sin\s*\(\s*\1\s*,\s*(\w+)\s*\)" % op, body)
+        ms = ms and re.match(r"()(.*)", ms.group(2))
         if not m or not ms:
             raise GenError("%s left the translated shape (first step (x&1u)?a:b, loop while(!isprime(n,r)) %sin(n,s))" % (fn, op))
-        return ev(m.group(1), mac), ev(m.group(2), mac), ev(ms.group(1), mac)
+        return ev(m.group(1), mac), ev(m.group(2), mac), ev(ms.group(2), mac)
     K["NEXTIN_ODD"], K["NEXTIN_EVEN"], K["NEXTIN_STEP"] = steps("nextprimein", b1, "n", "add")
     K["NEXT_ODD"], K["NEXT_EVEN"], K["NEXT_STEP"] = steps("nextprime", b2, "p", "add")
     K["PREVIN_ODD"], K["PREVIN_EVEN"], K["PREVIN_STEP"] = steps("prevprimein", b3, "n", "sub")
     K["PREV_ODD"], K["PREV_EVEN"], K["PREV_STEP"] = steps("prevprime", b4, "p", "sub")
     # --- Protected::prevprime (gmp++_int_misc.C)
     mc = read_src("misc_C")
-    b = func_body(mc, r"Integer\s*&\s*prevprime\s*\(\s*Integer\s*&\s*r\s*,\s*const\s+Integer\s*&\s*p\s*\)\s*\{", "Protected::prevprime")
+    msig = re.search(r"Integer\s*&\s*prevprime\s*\(\s*Integer\s*&\s*(\w+)\s*,\s*const\s+Integer\s*&\s*(\w+)\s*\)\s*\{", mc)
+    if not msig:
+        raise GenError("cannot find Protected::prevprime(Integer&, const Integer&)")
+    b = func_body(mc, r"Integer\s*&\s*prevprime\s*\(\s*Integer\s*&\s*\w+\s*,\s*const\s+Integer\s*&\s*\w+\s*\)\s*\{", "Protected::prevprime")
+    b = re.sub(r"\b%s\b" % re.escape(msig.group(1)), "r", b)
+    b = re.sub(r"\b%s\b" % re.escape(msig.group(2)), "p", b)
     m = re.match(r"\s*if\s*\(\s*p\s*(<=|<)\s*(\w+)\s*\)\s*return\s*\(?\s*r\s*=\s*(\w+)\s*\)?\s*;", b)
     subs = re.findall(r"mpz_sub_ui\s*\([^;]*?,\s*(\w+)\s*\)\s*;", b)
     if not m or len(subs) != 3 or not re.search(r"if\s*\(\s*isOdd\s*\(\s*p\s*\)\s*\)", b):
@@ -292,10 +320,16 @@ def gen_tables():
     K["PPREV_LOWVAL"] = ev(m.group(3), mac)
     K["PPREV_ODD"], K["PPREV_EVEN"], K["PPREV_STEP"] = [ev(s, mac) for s in subs]
     # --- isprimepower: small primes
-    m, vals = array_init(pc, r"static\s+const\s+unsigned\s+short\s+primes\s*\[\s*\]()", mac, "isprimepower's primes[]")
+    m, vals = array_init(pc, r"static\s+const\s+[\w\s]*?\bprimes\s*\[\s*\]()", mac, "isprimepower's primes[]")
     K["PP_PRIMES"] = vals
     K["SMALLEST_OMITTED_PRIME"] = ev("SMALLEST_OMITTED_PRIME", mac)
     b = func_body(pc, r"unsigned\s+int\s+IntPrimeDom::isprimepower\s*\([^)]*\)\s*const\s*\{", "IntPrimeDom::isprimepower")
+    msig = re.search(r"IntPrimeDom::isprimepower\s*\(\s*Rep\s*&\s*(\w+)\s*,\s*const\s+Rep\s*&\s*(\w+)\s*\)", pc)
+    if msig:
+        b = re.sub(r"\b%s\b" % re.escape(msig.group(2)), "u", re.sub(r"\b%s\b" % re.escape(msig.group(1)), "q", b))
+    msz = re.search(r"int\s+(\w+)\s*=\s*(?:int\s*\(|\(\s*int\s*\))?\s*u\s*\.\s*size\s*\(", b)
+    if msz:
+        b = re.sub(r"\b%s\b" % re.escape(msz.group(1)), "usize", b)
     K["IPP_NEG_GUARD"] = bool(re.search(r"if\s*\(\s*u\s*<\s*0\s*\)\s*return\s+0\s*;", b))
     K["IPP_RECURSE"] = bool(re.search(r"isprimepower\s*\(", b))
     K["IPP_ZERO_RET"] = None
@@ -315,10 +349,10 @@ def gen_tables():
     if vc.get("PROD_first_primes") != ("literal", K["PROD_FIRST"]) or vc.get("PROD_second_primes") != ("literal", K["PROD_SECOND"]):
         raise GenError("the constructor initialisers of the primorials in the clang AST (%s, %s) differ from the source text" % (vc.get("PROD_first_primes"), vc.get("PROD_second_primes")))
     for name, key in (("factor_first_primes", "FIRST"), ("factor_second_primes", "SECOND")):
-        m = re.search(r"#\s*define\s+%s\s*\(\s*tmp\s*,\s*n\s*\)\s*\(\s*tmp\s*=(.*)$" % name, fhc, flags=re.M)
+        m = re.search(r"#\s*define\s+%s\s*\(\s*(\w+)\s*,\s*(\w+)\s*\)\s*\(\s*\1\s*=(.*)$" % name, fhc, flags=re.M)
         if not m:
             raise GenError("cannot find macro " + name)
-        body = m.group(1)
+        body = re.sub(r"\b%s\b" % re.escape(m.group(2)), "n", re.sub(r"\b%s\b" % re.escape(m.group(1)), "tmp", m.group(3)))
         pairs = re.findall(r"isZero\s*\(\s*mod\s*\(\s*tmp\s*,\s*n\s*,\s*(\d+)\s*\)\s*\)\s*\?\s*(\d+)\s*:", body)
         rest = re.sub(r"isZero\s*\(\s*mod\s*\(\s*tmp\s*,\s*n\s*,\s*\d+\s*\)\s*\)\s*\?\s*\d+\s*:", "", body)
         md = re.fullmatch(r"[\s(]*(\d+)[\s)]*", rest)
@@ -327,39 +361,41 @@ def gen_tables():
         K[key + "_TESTS"] = [(int(a), int(b)) for a, b in pairs]
         K[key + "_DEFAULT"] = int(md.group(1))
     b = func_body(fhc, r"Rep\s*&\s*primefactor\s*\([^)]*\)\s*const\s*\{", "IntFactorDom::primefactor")
-    if not re.search(r"while\s*\(\s*\(\s*iffactorprime\s*\(\s*r\s*,\s*n\s*,\s*0\s*\)\s*==\s*1\s*\)", b):
+    if not re.search(r"while\s*\(\s*\(?\s*iffactorprime\s*\(\s*\w+\s*,\s*\w+\s*,\s*0\s*\)\s*==\s*1\s*\)?", b):
         raise GenError("primefactor left the translated shape (while ((iffactorprime(r,n,0) == 1) && ...) {})")
-    K["PRIMEFACTOR_GUARD"] = bool(re.search(r"GIVARO_ISGT\s*\(\s*n\s*,\s*1\s*\)|\(\s*n\s*>\s*1\s*\)", b))
+    K["PRIMEFACTOR_GUARD"] = bool(re.search(r"GIVARO_ISGT\s*\(\s*\w+\s*,\s*1\s*\)|\(\s*\w+\s*>\s*1\s*\)|&&\s*\w+\s*>\s*1\b", b))
     fi = read_src("factor_inl")
-    b = func_body(fi, r"void\s+IntFactorDom<MyRandIter>::set\s*\(\s*Container\s*&\s*Lf\s*,\s*const\s+Rep\s*&\s*n\s*\)\s*const\s*\{", "IntFactorDom::set(Lf, n)")
-    K["SET1_ABS"] = bool(re.search(r"Rep::neg\s*\(\s*nn\s*,\s*n\s*\)", b))
+    b = func_body(fi, r"void\s+IntFactorDom<\w+>::set\s*\(\s*Container\s*&\s*\w+\s*,\s*const\s+Rep\s*&\s*\w+\s*\)\s*const\s*\{", "IntFactorDom::set(Lf, n)")
+    K["SET1_ABS"] = bool(re.search(r"\bneg(?:in)?\s*\(|\babs\s*\(|=\s*-\s*\w+\s*;", b))          # any negation / absolute value of the argument
     # --- the random walk: Pollard_cst, and whether factor / Pollard / Lenstra copy their argument when called in place
     K["POLLARD_CST"] = ev("Pollard_cst", macros_of(fhc))
-    inplace = r"if\s*\(\s*&\s*%s\s*==\s*&\s*n\s*\)"
-    b = func_body(fhc, r"Rep\s*&\s*factor\s*\(\s*Rep\s*&\s*r\s*,\s*const\s+Rep\s*&\s*n\s*,[^)]*\)\s*const\s*\{", "IntFactorDom::factor")
+    inplace = r"if\s*\(\s*&\s*\w+\s*==\s*&\s*\w+\s*\)%.0s"          # the guard, whatever the parameters are called
+    b = func_body(fhc, r"Rep\s*&\s*factor\s*\(\s*Rep\s*&\s*\w+\s*,\s*const\s+Rep\s*&\s*\w+\s*,[^)]*\)\s*const\s*\{", "IntFactorDom::factor")
     K["FACTOR_INPLACE_GUARD"] = bool(re.search(inplace % "r", b))
-    b = func_body(fi, r"IntFactorDom<MyRandIter>::Pollard\s*\(\s*const\s+MyRandIter\s*&\s*gen\s*,\s*Rep\s*&\s*g\s*,\s*const\s+Rep\s*&\s*n\s*,[^)]*\)\s*const\s*\{", "IntFactorDom::Pollard")
+    b = func_body(fi, r"IntFactorDom<\w+>::Pollard\s*\(\s*const\s+\w+\s*&\s*\w+\s*,\s*Rep\s*&\s*\w+\s*,\s*const\s+Rep\s*&\s*\w+\s*,[^)]*\)\s*const\s*\{", "IntFactorDom::Pollard")
     K["POLLARD_INPLACE_GUARD"] = bool(re.search(inplace % "g", b))
-    if not re.search(r"this\s*->\s*random\s*\(\s*gen\s*,\s*y\s*,\s*n\s*\)", b) or not re.search(r"Pollard\s*\(\s*gen\s*,\s*g\s*,\s*n\s*,\s*threshold\s*-\s*c\s*\)", b):
+    if not re.search(r"\brandom\s*\(\s*\w+\s*,\s*\w+\s*,\s*\w+\s*\)", b) or not re.search(r"Pollard\s*\(\s*\w+\s*,\s*\w+\s*,\s*\w+\s*,\s*\w+\s*-\s*\w+\s*\)", b):
         raise GenError("IntFactorDom::Pollard left the translated shape (this->random(gen, y, n); restart Pollard(gen, g, n, threshold-c))")
-    b = func_body(fi, r"IntFactorDom<MyRandIter>::Lenstra\s*\(\s*const\s+MyRandIter\s*&\s*gen\s*,\s*Rep\s*&\s*g\s*,\s*const\s+Rep\s*&\s*n\s*,[^)]*\)\s*const\s*\{", "IntFactorDom::Lenstra")
+    b = func_body(fi, r"IntFactorDom<\w+>::Lenstra\s*\(\s*const\s+\w+\s*&\s*\w+\s*,\s*Rep\s*&\s*\w+\s*,\s*const\s+Rep\s*&\s*\w+\s*,[^)]*\)\s*const\s*\{", "IntFactorDom::Lenstra")
     K["LENSTRA_INPLACE_GUARD"] = bool(re.search(inplace % "g", b))
     # --- Miller: where the witness comes from
     pi = read_src("prime_inl")
-    b = func_body(pi, r"IntPrimeDom::Miller\s*\(\s*MyRandIter\s*&\s*g\s*,\s*const\s+Integer\s*&\s*n\s*\)\s*const\s*\{", "IntPrimeDom::Miller")
-    mw = re.search(r"\b(nonzerorandom|random)\s*\(\s*g\s*,\s*a\s*,\s*n\s*\)\s*;", b)
+    b = func_body(pi, r"IntPrimeDom::Miller\s*\(\s*\w+\s*&\s*\w+\s*,\s*const\s+\w+\s*&\s*\w+\s*\)\s*const\s*\{", "IntPrimeDom::Miller")
+    mw = re.search(r"\b(nonzerorandom|random)\s*\(\s*\w+\s*,\s*\w+\s*,\s*\w+\s*\)\s*;", b)
     if not mw:
         raise GenError("IntPrimeDom::Miller left the translated shape (random(g, a, n) / nonzerorandom(g, a, n))")
     K["MILLER_NONZERO"] = mw.group(1) == "nonzerorandom"
     # --- FermatDom: fermat(f, n) = (1 << (1u << n)) + c, pepin: 3^((fn-1)/2) == fn - 1
     b = func_body(pc, r"FermatDom::fermat\s*\([^)]*\)\s*const\s*\{", "FermatDom::fermat")
-    m = re.search(r"assign\s*\(\s*f\s*,\s*one\s*\)\s*<<=\s*\(\s*1u\s*<<\s*n\s*\)\s*;\s*return\s+addin\s*\(\s*f\s*,\s*(\w+)\s*\)", b)
+    m = re.search(r"assign\s*\(\s*(\w+)\s*,\s*one\s*\)\s*<<=\s*\(\s*1[uU]?[lL]*\s*<<\s*\w+\s*\)\s*;\s*return\s+addin\s*\(\s*\1\s*,\s*(\w+)\s*\)", b)
+    m = m and re.match(r"(.*)", m.group(2))
     if not m:
         raise GenError("FermatDom::fermat left the translated shape (assign(f,one) <<= (1u << n); return addin(f, c);)")
     K["FERMAT_ADD"] = ev(m.group(1), mac)
-    b = func_body(pc, r"bool\s+FermatDom::pepin\s*\(\s*const\s+Rep\s*&\s*fn\s*\)\s*const\s*\{", "FermatDom::pepin")
-    m = re.search(r"sub\s*\(\s*z\s*,\s*fn\s*,\s*(\w+)\s*\)\s*;\s*divin\s*\(\s*z\s*,\s*(\w+)\s*\)\s*;\s*powmod\s*\(\s*y\s*,\s*(\w+)\s*,\s*z\s*,\s*fn\s*\)\s*;"
-                  r"\s*subin\s*\(\s*y\s*,\s*fn\s*\)\s*;\s*negin\s*\(\s*y\s*\)\s*;\s*return\s+isOne\s*\(\s*y\s*\)", b)
+    b = func_body(pc, r"bool\s+FermatDom::pepin\s*\(\s*const\s+Rep\s*&\s*\w+\s*\)\s*const\s*\{", "FermatDom::pepin")
+    m = re.search(r"sub\s*\(\s*(?P<z>\w+)\s*,\s*(?P<fn>\w+)\s*,\s*(\w+)\s*\)\s*;\s*divin\s*\(\s*(?P=z)\s*,\s*(\w+)\s*\)\s*;\s*powmod\s*\(\s*(?P<y>\w+)\s*,\s*(\w+)\s*,\s*(?P=z)\s*,\s*(?P=fn)\s*\)\s*;"
+                  r"\s*subin\s*\(\s*(?P=y)\s*,\s*(?P=fn)\s*\)\s*;\s*negin\s*\(\s*(?P=y)\s*\)\s*;\s*return\s+isOne\s*\(\s*(?P=y)\s*\)", b)
+    m = m and re.match(r"(\w+) (\w+) (\w+)", "%s %s %s" % (m.group(3), m.group(4), m.group(6)))
     if not m:
         raise GenError("FermatDom::pepin left the translated shape (sub(z,fn,a); divin(z,b); powmod(y,c,z,fn); subin(y,fn); negin(y); return isOne(y);)")
     K["PEPIN_SUB"], K["PEPIN_DIV"], K["PEPIN_BASE"] = ev(m.group(1), mac), ev(m.group(2), mac), ev(m.group(3), mac)
@@ -864,6 +900,23 @@ def scripted_cases(rng, K, add, thorough):
         emit("s.pollard", n, 0, ["composite"], f, base=rng.range(0, 50))
         emit("s.factor", n, 0, ["composite"], f, base=rng.range(0, 50))
         emit("s.pollard", n, 0, ["prime"], f, base=rng.range(0, 50))
+    # random start values (no plan): n that pass the trial-division cascade, so that every answer is tied through the model's own walk
+    # and not through an echo of the implementation's answer
+    for k in range(160 if not thorough else 4000):
+        ps = [rng.choice(P) for _ in range(rng.range(2, 4))]
+        if k % 5 == 0:
+            ps.append(rand_prime(rng, rng.range(11, 16)))
+        f = {}
+        for q in ps:
+            f[q] = f.get(q, 0) + 1
+        n = prod_fac(f)
+        ys = [rng.range(0, n - 1) for _ in range(14)]
+        for v in ("s.factor", "s.iffactorprime", rng.choice(["s.pollard", "s.primefactor"]), rng.choice(["s.set2", "s.divisors", "s.set2.list", "s.set1", "s.write"])):
+            add(v, [n, 0] + ys + list(range(900, 912)), "scripted", f, "random start values")
+        if k % 4 == 0:
+            thr = rng.choice([2, 3, 5, 9, 17, 40])
+            for v in ("s.pollard", "s.iffactorprime", "s.set2"):
+                add(v, [n, thr] + ys + list(range(900, 912)), "scripted", f, "random start values, loops = %d" % thr)
     # restart (g == n): at the first call, in the one-shot re-split, inside the loop
     for ps, plan in (((103, 109), ["restart", "prime"]), ((103, 109, 127), ["composite", "restart", "prime"]),
                      ((103, 109, 127, 139), ["composite", "composite", "restart", "prime"]), ((211, 223), ["restart", "restart", "prime"])):
@@ -1166,6 +1219,22 @@ def gen_cases(rng, tier, chk, K=None):
         f = {p: 1, q: 1}
         for v in ("divisors.n", "set2.vec", "write", "set1.vec", "primefactor"):
             add(v, [p * q if v != "write" else -p * q], "factor1" if v == "primefactor" else "set", f, "semiprime ~2^75")
+    # Erathostene beyond 2^20 (the array is n+1 shorts): the documented domain is "p < BOUNDARY_factor"; the int variables i, j, ii hold up to
+    # 2^31 - 2 - 2*sqrt(n).  A few larger n (oracle only; the model sieve is sampled): 2^22..2^24 in quick, up to 2^27 in thorough
+    for e in ((22, 23, 24) if not thorough else (22, 24, 26, 27)):
+        p1 = prev_prime(1 << e)
+        add("erat", [p1], "set", {p1: 1}, "large n")
+        q = prev_prime(1 << (e // 2)); q2 = prev_prime(q)
+        add("erat", [q * q2], "set", {q: 1, q2: 1}, "large n")
+        add("erat", [q * q], "set", {q: 2}, "large n")
+        m, fz, d = (1 << e) - 2, {}, 2
+        while d * d <= m:
+            while m % d == 0:
+                fz[d] = fz.get(d, 0) + 1; m //= d
+            d += 1
+        if m > 1:
+            fz[m] = 1
+        add("erat", [(1 << e) - 2], "set", fz, "large n")
     # ---- E. scripted random walks, in-place call forms, Miller with a chosen witness
     if K:
         scripted_cases(rng, K, add, thorough)
@@ -1293,7 +1362,7 @@ def model_line(c, out):
     if v in ("fermat", "pepin"):
         return None if (v == "pepin" and a[0] > 8) else "%s %d" % (v, a[0])      # the model's powmod on 2^k-bit numbers: k <= 8
     if v == "erat":
-        return "erat %d" % a[0] if (a[0] < (1 << 16) or a[0] % 29 == 3) else None      # the model sieve needs ~0.5 s near 2^20: a sample of the large ones
+        return "erat %d" % a[0] if (a[0] < (1 << 16) or (a[0] % 29 == 3 and a[0] < (1 << 21))) else None      # the model sieve needs ~0.5 s near 2^20: a sample of the large ones
     if v == "ipp.alias":
         return "ipp.alias %d" % a[0]
     if v == "divisors.lf.alias":
@@ -1816,6 +1885,26 @@ def main(tier, replay=None):
     if err:
         chk.broke("translation of the prime tables / constants from the source failed: " + err)
     if K:
+        # The repaired state of the source is the only accepted one: every flag / low-end constant that belongs to a finding marked `fixed`
+        # must read as its repaired value.  A regression is a broken obligation naming the theorem that is stated for the repaired state
+        # (coq/C12/ProofsAccepted.v fails on it as well; this message says which repair went away even if the Coq build is not reached).
+        ACCEPTED = [("ISPRIME_HAS_GUARD", True, "C12_isprime_below_2 / C12_isprime_exact_for_all_n_given_gmp (isprime(n) = 0 for n < 2)"),
+                    ("ISPRIME_GUARD", 2, "C12_isprime_below_2"),
+                    ("PREV_LOW", 3, "C12_prevprime_at_3 (prevprime(3) = 2)"), ("PREVIN_LOW", 3, "C12_prevprime_at_3 (prevprimein(3) = 2)"),
+                    ("PPREV_LOW", 3, "C12_protected_prevprime_at_3"),
+                    ("IPP_NEG_GUARD", True, "C12_isprimepower_decides / C12_isprimepower_zero_for_nonpositive"),
+                    ("IPP_RECURSE", True, "C12_isprimepower_complete / C12_isprimepower_decides (recursion on a non-prime exact root)"),
+                    ("IPP_ZERO_RET", 0, "C12_isprimepower_zero_for_nonpositive (isprimepower(0) = 0)"),
+                    ("PRIMEFACTOR_GUARD", True, "ProofsAccepted.other_flags_ok (primefactor(r, 1) returns)"),
+                    ("SET1_ABS", True, "C12_set_one_container_distinct_factors (set(Lf, n) of a negative n)"),
+                    ("FACTOR_INPLACE_GUARD", True, "C12_factor_in_place"), ("POLLARD_INPLACE_GUARD", True, "C12_pollard_in_place"),
+                    ("LENSTRA_INPLACE_GUARD", True, "ProofsAccepted.other_flags_ok (Lenstra in place)"),
+                    ("MILLER_NONZERO", True, "C12_miller_witness_zero / C12_miller_accepts_every_prime")]
+        chk.cov["accepted_source_state"] = {k: K[k] for k, _, _ in ACCEPTED}
+        for k, want, thm in ACCEPTED:
+            if K[k] != want:
+                chk.broke("the source left the repaired state: %s reads as %r (accepted: %r) - regression of a repair marked `fixed`; theorem %s is stated for the repaired state and no longer holds"
+                          % (k, K[k], want, thm))
         D = K["DOM"]
         chk.cov["domain_members_from_clang_ast"] = {"class": "IntFactorDom<GivRandom>", "fields": D["fields"], "copy_constructor_user_provided": D["copy_ctor_user"],
                                                    "copy_constructor": {k: list(v) for k, v in D["copy_ctor"].items()}, "operator=_user_provided": D["assign_user"],
@@ -1868,11 +1957,25 @@ def main(tier, replay=None):
     rc, iout, ierr = vf.run_lines(himpl, impl_in, timeout=3000, args=["12" if tier == "quick" else "90"])
     if rc == 124 and "[timeout]" in ierr:
         inconclusive.append("the implementation harness did not finish %d cases within 50 minutes (machine load): no verdict from this run" % len(cases))
+        chk.cov["inconclusive"], chk.cov["floor_missed"] = True, ["oracle_comparisons", "correspondence_comparisons", "scripted_walk_comparisons"]
+        print("INCONCLUSIVE property=C12 streams=%s (nothing was compared in this run)" % inconclusive)
         return chk.finish()
     if rc != 0 or len(iout) != len(cases):
         bad = cases[len(iout)] if len(iout) < len(cases) else None
         chk.broke("implementation harness failed (rc=%s, %d/%d lines); next case: %s" % (rc, len(iout), len(cases), bad and (bad["v"], bad["args"])), ierr)
         return chk.finish()
+    # a call that did not return within its CPU budget is re-run ALONE with 5x the budget before it is called a hang
+    hung = [i for i, o in enumerate(iout) if o.startswith("HANG")]
+    if hung:
+        big = "60" if tier == "quick" else "450"
+        redo = "".join("%s%s %s\n" % ("@%s " % cases[i]["way"] if cases[i].get("way") else "", cases[i]["v"], " ".join(str(x) for x in cases[i]["args"])) for i in hung[:6])
+        rc2, o2, e2 = vf.run_lines(himpl, redo.replace(".ip ", ".ipx ") if False else redo, timeout=3000, args=[big])
+        back = 0
+        if rc2 == 0 and len(o2) == len(hung[:6]):
+            for i, o in zip(hung[:6], o2):
+                if not o.startswith("HANG"):
+                    iout[i] = o; back += 1
+        chk.cov["hang_rerun"] = {"first_pass_hangs": len(hung), "rerun_alone": min(len(hung), 6), "rerun_alone_with_budget_s": int(big), "returned_on_rerun": back}
     lap("implementation")
     # 4. model run on the same cases (+ the implementation's random-walk answers as oracle values)
     mlines, midx = [], []
@@ -1949,6 +2052,17 @@ def main(tier, replay=None):
         json.dump({"failing": chk.failing, "broken": chk.broken}, open(os.path.join(vf.BUILD, "logs", "C12.debug.json"), "w"), indent=1, default=str)
     if len(chk.broken) > 20:
         chk.broken = chk.broken[:20] + [{"what": "... %d more" % (len(chk.broken) - 20), "detail": ""}]
+    # floors: what a run must have compared to count as a run of this check; below them (tooling problems) the evidence says so prominently
+    floor = {"theorems_rechecked": chk.cov["obligations"], "oracle_comparisons": 9000 if tier == "quick" else 100000,
+             "correspondence_comparisons": 600000 if tier == "quick" else 1000000, "scripted_walk_comparisons": 800}
+    got = {"theorems_rechecked": chk.cov["discharged"], "oracle_comparisons": len(cases), "correspondence_comparisons": ncorr,
+           "scripted_walk_comparisons": sum(1 for i, c in enumerate(cases) if c["v"].startswith("s.") and i in mout)}
+    chk.cov["floor"], chk.cov["compared"] = floor, got
+    chk.cov["floor_missed"] = [k for k in floor if got[k] < floor[k]] if not replay else []
+    chk.cov["inconclusive"] = bool(inconclusive or chk.cov["floor_missed"])
+    if chk.cov["inconclusive"] and not chk.failing and not chk.broken:
+        print("INCONCLUSIVE property=C12 streams=%s floor_missed=%s (tooling time-out / machine load: this run is not a pass of the skipped probes)"
+              % (inconclusive, chk.cov["floor_missed"]))
     chk.cov["rule"] = ("exhaustive n in [0,65536) for isprime / isprime_Tabule / isprime_Tabule2 and p in [-6,66100) for every next/prev form; "
                        "structured 64-bit n (Carmichael numbers, strong pseudoprimes, p^2, pq with close p and q, neighbours of 2^15..2^65, negatives); "
                        "factorisation inputs built from known prime factorisations (smooth, semiprime, prime power, Carmichael, second-primorial-only, n=0,1,2, negative); "
